@@ -10,6 +10,7 @@ import Proofs.InsertSuccess
 import Proofs.PlacementValid
 import Proofs.MarkupSuccess
 import Proofs.CommuteSuccessR
+import Proofs.FlatInsertCore
 set_option linter.unusedVariables false
 namespace PM
 open PM.FromDom (TextStable StEq)
@@ -195,7 +196,8 @@ theorem insertAt_closed_openValid (S : Schema) (sl ins : Slice) (pos : Nat) (gap
     (hv : openValid S sl.openStart sl.openEnd sl.content = true)
     (h : sl.insertAt S pos gap = .ok (some ins)) :
     openValid S ins.openStart ins.openEnd ins.content = true := by
-  unfold Slice.insertAt at h
+  rw [insertAt_of_le (insertAt_ok h).1] at h
+  unfold Slice.insertAtIn at h
   rw [h0, h1] at h hv
   simp only [Nat.add_zero] at h
   split at h
@@ -579,15 +581,16 @@ theorem insertInto_open_valid (S : Schema) (gap : List Node) (hg : S.checkKids g
             · simp at h
 termination_by rest => sizeOf rest
 
-/-- **`Slice.insert_at(pos, gap)` keeps payload validity** (any open depths, any position up to the slice's size; no
-    condition on the schema) -/
+/-- **`Slice.insert_at(pos, gap)` keeps payload validity** (any open depths, any position; no condition on the schema;
+    a position beyond the slice's size is refused by `insert_at` itself) -/
 theorem insertAt_openValid (S : Schema) (sl ins : Slice) (pos : Nat) (gap : List Node)
     (hg : S.checkKids gap = true) (hn : fnorm sl.content = true)
-    (hpos : (pos : Int) ≤ sl.size)
     (hv : openValid S sl.openStart sl.openEnd sl.content = true)
     (h : sl.insertAt S pos gap = .ok (some ins)) :
     openValid S ins.openStart ins.openEnd ins.content = true := by
-  unfold Slice.insertAt at h
+  have hpos := (insertAt_ok h).1
+  rw [insertAt_of_le (insertAt_ok h).1] at h
+  unfold Slice.insertAtIn at h
   unfold Slice.size at hpos
   split at h
   · rename_i c hc
